@@ -93,6 +93,8 @@ static void _do_hierarchy_change(HierarchyChangeType change, TickitWindow *paren
 static void _purge_hierarchy_changes(TickitWindow *win);
 static bool _is_within(const TickitWindow *win, const TickitWindow *ancestor);
 static bool _is_in_tree(const TickitWindow *tree, const TickitWindow *win);
+static size_t _copy_children(TickitWindow *win, TickitWindow ***childrenp);
+static bool _is_child(const TickitWindow *win, const TickitWindow *child);
 static int _handle_key(TickitWindow *win, TickitKeyEventInfo *args);
 static TickitWindow *_handle_mouse(TickitWindow *win, TickitMouseEventInfo *args);
 
@@ -718,7 +720,18 @@ static void _do_expose(TickitWindow *win, const TickitRect *rect, TickitRenderBu
   if(win->pen)
     tickit_renderbuffer_setpen(rb, win->pen);
 
-  for(TickitWindow* child = win->first_child; child; child = child->next) {
+  /* Expose handlers may close or destroy any window, their own included. Walk a
+   * copy of the list of children and check, by address only, that each entry
+   * still is a child before touching it - as input dispatch does
+   */
+  TickitWindow **children;
+  size_t n_children = _copy_children(win, &children);
+  for(size_t i = 0; i < n_children; i++) {
+    TickitWindow *child = children[i];
+
+    if(!_is_child(win, child))
+      continue;
+
     if(!child->is_visible)
       continue;
 
@@ -734,8 +747,11 @@ static void _do_expose(TickitWindow *win, const TickitRect *rect, TickitRenderBu
       tickit_renderbuffer_restore(rb);
     }
 
-    tickit_renderbuffer_mask(rb, &child->rect);
+    /* A child that left meanwhile no longer covers anything */
+    if(_is_child(win, child))
+      tickit_renderbuffer_mask(rb, &child->rect);
   }
+  free(children);
 
   TickitExposeEventInfo info = {
     .rect = *rect,
